@@ -4,6 +4,7 @@ import (
 	"bytes"
 	"encoding/json"
 	"fmt"
+	"math"
 	"math/big"
 	"strings"
 
@@ -809,4 +810,112 @@ func driveVJSONSchema(seed int64, n int, params map[string]string) []Obj {
 func init() {
 	register("vjsonschema", opVJSONSchema, func(c Obj, obs, exp J) []int { return nil })
 	drivers["vjsonschema"] = driveVJSONSchema
+}
+
+// ---------------------------------------------------------------- decision and diagnostic JSON (C13)
+
+type decisionDiag struct {
+	Decision   types.Decision   `json:"decision"`
+	Diagnostic types.Diagnostic `json:"diagnostic"`
+}
+
+func intToJ(n int) J { return bigToJ(big.NewInt(int64(n))) }
+
+func diagPosToJ(p types.Position) J {
+	return Obj{"file": cwf.StrToJ(p.Filename), "off": intToJ(p.Offset), "line": intToJ(p.Line), "col": intToJ(p.Column)}
+}
+
+func decisionDiagToJ(d decisionDiag) J {
+	rs, es := []any{}, []any{}
+	for _, r := range d.Diagnostic.Reasons {
+		rs = append(rs, Obj{"id": cwf.StrToJ(string(r.PolicyID)), "pos": diagPosToJ(r.Position)})
+	}
+	for _, e := range d.Diagnostic.Errors {
+		es = append(es, Obj{"id": cwf.StrToJ(string(e.PolicyID)), "pos": diagPosToJ(e.Position), "msg": cwf.StrToJ(e.Message)})
+	}
+	dec := "deny"
+	if d.Decision == types.Allow {
+		dec = "allow"
+	}
+	return Obj{"decision": dec, "reasons": rs, "errors": es}
+}
+
+// op "djson": {dd: index of the generated decision/diagnostic, seed} is not replayable from the wire alone, so the
+// event carries the datum itself: {datum: {decision, reasons, errors}} (strings as code points, numbers as limbs)
+func opDJSON(c Obj) J {
+	dj := c["datum"].(Obj)
+	var d decisionDiag
+	d.Decision = types.Decision(dj["decision"] == "allow")
+	pos := func(j J) types.Position {
+		o := j.(Obj)
+		return types.Position{Filename: must(cwf.JToStr(o["file"])), Offset: int(must(cwf.JToBig(o["off"])).Int64()),
+			Line: int(must(cwf.JToBig(o["line"])).Int64()), Column: int(must(cwf.JToBig(o["col"])).Int64())}
+	}
+	for _, r := range dj["reasons"].([]any) {
+		o := r.(Obj)
+		d.Diagnostic.Reasons = append(d.Diagnostic.Reasons, types.DiagnosticReason{PolicyID: types.PolicyID(must(cwf.JToStr(o["id"]))), Position: pos(o["pos"])})
+	}
+	for _, e := range dj["errors"].([]any) {
+		o := e.(Obj)
+		d.Diagnostic.Errors = append(d.Diagnostic.Errors, types.DiagnosticError{PolicyID: types.PolicyID(must(cwf.JToStr(o["id"]))), Position: pos(o["pos"]),
+			Message: must(cwf.JToStr(o["msg"]))})
+	}
+	b, err := json.Marshal(d)
+	if err != nil {
+		return Obj{"json": Obj{"z": 0}, "back": Obj{"ok": false, "err": ascii(err.Error())}, "rejson": "n/a"}
+	}
+	out := Obj{"json": must(ToTJSON(b)), "rejson": "n/a"}
+	var back decisionDiag
+	if err := json.Unmarshal(b, &back); err != nil {
+		out["back"] = Obj{"ok": false, "err": ascii(err.Error())}
+		return out
+	}
+	out["back"] = Obj{"ok": true, "v": decisionDiagToJ(back)}
+	out["rejson"] = "differs"
+	if b2, err := json.Marshal(back); err == nil && bytes.Equal(b, b2) {
+		out["rejson"] = "same"
+	}
+	return out
+}
+
+// driver "djson": decisions with 0-3 reasons and errors; ids, file names and messages over the text classes (JSON
+// escapes, non-BMP, controls), positions at the boundaries of int
+func driveDJSON(seed int64, n int, params map[string]string) []Obj {
+	g := newGen(seed, 2)
+	out := make([]Obj, 0, n)
+	num := func() int {
+		switch g.r.Intn(6) {
+		case 0:
+			return 0
+		case 1:
+			return math.MaxInt64
+		case 2:
+			return math.MinInt64
+		case 3:
+			return -1
+		default:
+			return g.r.Intn(100000)
+		}
+	}
+	str := func() string { return g.textString(g.r.Intn(70)) }
+	pos := func() types.Position {
+		return types.Position{Filename: str(), Offset: num(), Line: num(), Column: num()}
+	}
+	for i := 0; i < n; i++ {
+		var d decisionDiag
+		d.Decision = types.Decision(g.r.Intn(2) == 0)
+		for k := g.r.Intn(4); k > 0; k-- {
+			d.Diagnostic.Reasons = append(d.Diagnostic.Reasons, types.DiagnosticReason{PolicyID: types.PolicyID(str()), Position: pos()})
+		}
+		for k := g.r.Intn(4); k > 0; k-- {
+			d.Diagnostic.Errors = append(d.Diagnostic.Errors, types.DiagnosticError{PolicyID: types.PolicyID(str()), Position: pos(), Message: str()})
+		}
+		out = append(out, Obj{"op": "djson", "datum": decisionDiagToJ(d)})
+	}
+	return out
+}
+
+func init() {
+	register("djson", opDJSON, func(c Obj, obs, exp J) []int { return nil })
+	drivers["djson"] = driveDJSON
 }
